@@ -45,6 +45,14 @@ PROPS = {
     },
 }
 
+PROPS["C14"] = {
+    "module": "Matreex.Props.C14", "harness": "C14",
+    "technique": "Lean 4 loop-invariant proofs for both branches of overwrite (unchecked sub-slices; strided zip), lifted to the logical view for the four order combinations; exhaustive correspondence over shape pairs with clone-marking tokens",
+    "trusted": ["get_unchecked(range) modelled as UB outside the vector, clone_from_slice as panic on a length mismatch, skip/step_by/zip as position arithmetic with step_by(0) = panic (Model/Overwrite.lean)",
+                "Clone::clone is an effect-free function in these theorems (fault schedules: C02)"],
+    "assumptions": ["Coh for both matrices (C01)"],
+}
+
 LEVEL_TEXT = ("Machine-checked Lean 4 theorems, for all inputs the property quantifies over, about a model whose integer core is "
               "regenerated from /repo/src on every run and whose remaining structure is tied to the implementation by a differential "
               "correspondence run (same operation lines on crate and model) plus the property's own oracle on the implementation.")
